@@ -138,6 +138,9 @@ theorem setBuf_fields (c : Ctl) (i : Nat) (b : Buf) :
     (c.setBuf i b).opcode = c.opcode ∧ (c.setBuf i b).start = c.start ∧ (c.setBuf i b).stop = c.stop := by
   unfold Ctl.setBuf; split <;> exact ⟨rfl, rfl, rfl⟩
 
+theorem setBuf_inFlash (c : Ctl) (i : Nat) (b : Buf) : (c.setBuf i b).inFlash = c.inFlash := by
+  unfold Ctl.setBuf; split <;> rfl
+
 /-- outcome of a step of the controller: buffers fine, effects inside, opcode untouched -/
 structure StepOK (cfg : Cfg) (c c' : Ctl) (effs : List Effect) : Prop where
   ctl    : CtlOK cfg c'
@@ -320,6 +323,133 @@ theorem ctrlRead_ok {cfg : Cfg} {c : Ctl} (h : CtlOK cfg c) (v : List UInt8) :
       · exact ⟨h, hread _ rfl rfl, AllInside.nil⟩
       · exact ⟨h, hread _ rfl rfl, AllInside.nil⟩
 
+/-- fix boot-03: while the Read procedure is the current control point procedure the controller is
+    not in flash mode (so no data write can move `start_address`) -/
+def ReadMode (c : Ctl) : Prop := c.opcode = 8 → c.inFlash = false
+
+/-- the controller a control point write leaves behind -/
+def CtrlResult.ctl? : CtrlResult → Option Ctl
+  | .done c _ _ _ _ => some c
+  | .oob => none
+
+theorem requestError_readMode (c : Ctl) (code : Nat) (effs : List Effect) :
+    ∀ c', (requestError c code effs).ctl? = some c' → ReadMode c' := by
+  intro c' h
+  simp only [requestError, CtrlResult.ctl?, Option.some.injEq] at h
+  subst h
+  intro h8
+  exact absurd h8 (by show undefinedOpcode ≠ 8; decide)
+
+theorem readMode_of_ne {c : Ctl} (h : c.opcode ≠ 8) : ReadMode c := fun h8 => absurd h8 h
+
+theorem ctrlRead_readMode (cfg : Cfg) (c : Ctl) (v : List UInt8) :
+    ∀ c', (ctrlRead cfg c v).ctl? = some c' → ReadMode c' := by
+  intro c'
+  unfold ctrlRead
+  split
+  · exact requestError_readMode _ _ _ c'
+  · split
+    · dsimp only
+      split
+      · exact requestError_readMode _ _ _ c'
+      · split <;>
+        · intro h
+          simp only [CtrlResult.ctl?, Option.some.injEq] at h
+          subst h
+          intro _; rfl
+    · intro h; simp [CtrlResult.ctl?] at h
+
+/-- every control point write leaves `ReadMode` established: either the opcode is not 8 afterwards,
+    or it is an accepted Read, which leaves flash mode -/
+theorem ctrlWrite_readMode (cfg : Cfg) (c : Ctl) (v : List UInt8) (hm : ReadMode c) :
+    ∀ c', (ctrlWrite cfg c v).ctl? = some c' → ReadMode c' := by
+  intro c'
+  unfold ctrlWrite
+  cases v with
+  | nil =>
+    intro h
+    simp only [CtrlResult.ctl?, Option.some.injEq] at h
+    subst h; exact hm
+  | cons opb rest =>
+    dsimp only
+    have key : ∀ (r : CtrlResult), opb.toNat ≠ 8 →
+        (∀ c', r.ctl? = some c' → c'.opcode = opb.toNat ∨ c'.opcode = undefinedOpcode) →
+        r.ctl? = some c' → ReadMode c' := by
+      intro r hne hr h
+      rcases hr c' h with e | e
+      · exact readMode_of_ne (by rw [e]; exact hne)
+      · exact readMode_of_ne (by rw [e]; decide)
+    split
+    · next ho =>
+      refine key _ (by omega) ?_
+      intro c'' h
+      unfold ctrlLeaveFlash at h
+      split at h <;> simp only [requestError, CtrlResult.ctl?, Option.some.injEq] at h <;> subst h
+      · exact .inr rfl
+      · exact .inl rfl
+    · split
+      · next ho =>
+        refine key _ (by omega) ?_
+        intro c'' h
+        unfold ctrlGetCrc at h
+        split at h
+        · simp only [requestError, CtrlResult.ctl?, Option.some.injEq] at h; subst h; exact .inr rfl
+        · split at h
+          · dsimp only at h
+            split at h <;> simp only [requestError, CtrlResult.ctl?, Option.some.injEq] at h <;> subst h
+            · exact .inr rfl
+            · exact .inl rfl
+          · simp [CtrlResult.ctl?] at h
+      · split
+        · next ho =>
+          refine key _ (by omega) ?_
+          intro c'' h
+          unfold ctrlStartFlash at h
+          split at h
+          · simp only [requestError, CtrlResult.ctl?, Option.some.injEq] at h; subst h; exact .inr rfl
+          · split at h
+            · dsimp only at h
+              split at h <;> simp only [requestError, CtrlResult.ctl?, Option.some.injEq] at h <;> subst h
+              · exact .inr rfl
+              · exact .inl rfl
+            · simp [CtrlResult.ctl?] at h
+        · split
+          · next ho =>
+            refine key _ (by omega) ?_
+            intro c'' h
+            unfold ctrlFlush at h
+            split at h
+            · simp only [requestError, CtrlResult.ctl?, Option.some.injEq] at h; subst h; exact .inr rfl
+            · dsimp only at h
+              split at h <;> simp only [requestError, CtrlResult.ctl?, Option.some.injEq] at h <;> subst h
+              · exact .inr rfl
+              · exact .inl (setBuf_fields _ _ _).1
+          · split
+            · next ho =>
+              refine key _ (by omega) ?_
+              intro c'' h
+              unfold ctrlStart at h
+              split at h
+              · simp only [requestError, CtrlResult.ctl?, Option.some.injEq] at h; subst h; exact .inr rfl
+              · split at h
+                · simp only [CtrlResult.ctl?, Option.some.injEq] at h; subst h; exact .inl rfl
+                · simp [CtrlResult.ctl?] at h
+            · split
+              · next ho =>
+                refine key _ (by omega) ?_
+                intro c'' h
+                unfold ctrlReset at h
+                split at h <;> simp only [requestError, CtrlResult.ctl?, Option.some.injEq] at h <;> subst h
+                · exact .inr rfl
+                · exact .inl rfl
+              · split
+                · exact ctrlRead_readMode cfg _ _ c'
+                · next ho =>
+                  intro h
+                  simp only [CtrlResult.ctl?, Option.some.injEq] at h
+                  subst h
+                  exact readMode_of_ne ho
+
 /-- the same relative to the state before the write: `ReadOK` is preserved -/
 def ResOK' (cfg : Cfg) (c : Ctl) : CtrlResult → Prop
   | .done c' _ _ _ effs => CtlOK cfg c' ∧ (ReadOK cfg c → ReadOK cfg c') ∧ AllInside cfg effs
@@ -364,6 +494,9 @@ theorem readNext_fields (c : Ctl) :
     (readNext c).opcode = c.opcode ∧ (readNext c).b0 = c.b0 ∧ (readNext c).b1 = c.b1 := by
   unfold readNext
   exact ⟨rfl, rfl, rfl, rfl, rfl⟩
+
+theorem readNext_inFlash (c : Ctl) : (readNext c).inFlash = c.inFlash := by
+  unfold readNext; rfl
 
 theorem readData_fst (c : Ctl) (h8 : c.opcode = 8) :
     (readData c).1 = readNext c ∧ (readData c).2.2.1 = [Effect.publicRead c.start (readLen c)] := by
@@ -453,5 +586,20 @@ theorem dequeue_ctl (s : Sys) : (dequeue s).1.ctl = s.ctl := by
     · split
       · exact setQ_ctl _ _ _
       · rfl
+
+theorem readData_readMode (c : Ctl) (h : ReadMode c) : ReadMode (readData c).1 := by
+  by_cases h8 : c.opcode = 8
+  · rw [(readData_fst c h8).1]
+    intro _
+    rw [readNext_inFlash]; exact h h8
+  · rw [readData_other c h8]; exact h
+
+theorem progressData_readMode (c : Ctl) (h : ReadMode c) : ReadMode (progressData c) := by
+  unfold progressData
+  intro h8
+  have h8' : c.opcode = 8 := (setBuf_fields c c.used (c.buf c.used).free).1 ▸ h8
+  show (c.setBuf c.used (c.buf c.used).free).inFlash = false
+  rw [setBuf_inFlash]; exact h h8'
+
 
 end BluetoeModel.Bootloader
